@@ -10,39 +10,7 @@ Spec for C07: the numeric tower as plain mathematics.
   converted to complex.  Float / complex arithmetic itself is the abstract `FloatOps`.
 * Vectors: element-wise on equal lengths, a scalar is a vector of copies of itself (`replicate`).
 -/
-import NoulithModel.Impl.NNumArith
-
-namespace Noulith.F64
-
-/-- `2 ^ k` in ℚ for an integer `k` -/
-def pow2 (k : Int) : Rat := if 0 ≤ k then ((2 ^ k.toNat : Nat) : Rat) else mkRat 1 (2 ^ (-k).toNat)
-
-/-- nearest integer to `m ≥ 0`, ties to even -/
-def roundHalfEven (m : Rat) : Int :=
-  let f := m.floor
-  let r := m - (f : Rat)
-  if 1 / 2 < r then f + 1
-  else if r < 1 / 2 then f
-  else if f % 2 = 0 then f else f + 1
-
-/-- The correctly rounded (round-to-nearest, ties-to-even) binary64 bit pattern of a rational —
-what "`float(x)` agrees with exact arithmetic" means.  Overflow gives ±∞, underflow ±0 or a
-subnormal.  The driver evaluates the SPEC column with this conversion (the Impl column keeps the
-conversion symbolic and the harness evaluates it with `BigInt::to_f64` / `BigRational::to_f64`). -/
-def ofRatRNE (q : Rat) : Nat :=
-  if q = 0 then 0
-  else
-    let neg : Bool := decide (q < 0)
-    let a : Rat := if neg then -q else q
-    let e0 : Int := (a.num.toNat.log2 : Int) - (a.den.log2 : Int)     -- 2^(e0-1) < a < 2^(e0+1)
-    let e : Int := if pow2 e0 ≤ a then e0 else e0 - 1                  -- 2^e ≤ a < 2^(e+1)
-    let ex : Int := if e < -1022 then -1022 else e                     -- subnormals share exponent -1022
-    let m : Int := roundHalfEven (a / pow2 (ex - 52))                  -- significand incl. hidden bit
-    let bits : Int := (ex + 1022) * 2 ^ 52 + m                         -- a carry into 2^53 bumps the exponent
-    let mag : Nat := if 0x7FF0000000000000 ≤ bits then 0x7FF0000000000000 else bits.toNat
-    (if neg then 2 ^ 63 else 0) + mag
-
-end Noulith.F64
+import NoulithModel.Impl.F64Ieee
 
 namespace Noulith.TowerSpec
 open Noulith NNum
